@@ -53,8 +53,21 @@ def multiline_condition(text):
     return lines
 
 
+import re
+
+_DOT_RE = re.compile(r"(?<=[\w\)\]])\.(?=[A-Za-z_])")
+
+
+def dot_break(text):
+    """`a.b.c(x).d` -> parenthesised, with a line break before every attribute dot. None if there is nothing to break
+    (or the text holds string literals, whose dots must stay)."""
+    if "'" in text or '"' in text or not _DOT_RE.search(text):
+        return None
+    return "(" + _DOT_RE.sub("\n            .", text) + ")"
+
+
 LAYOUTS = ["one-line", "args-on-lines", "keyword-form", "keyword-form-lines", "condition-multiline", "comments", "trailing-comma-desc-kw",
-           "no-description", "no-description-kw", "break-before-matmul", "break-before-matmul-tight"]
+           "no-description", "no-description-kw", "break-before-matmul", "break-before-matmul-tight", "break-before-dot"]
 NO_DESCRIPTION = ("no-description", "no-description-kw")
 
 
@@ -95,6 +108,15 @@ def make_layout(kind):
             op = "@ " if kind == "break-before-matmul" else "@"
             return ["@icontract.%s(" % deco, "    lambda %s: %s" % (", ".join(params), text[:i]),
                     "        %s%s," % (op, text[i + 3:]), "    %r%s)" % (desc, extra)]
+        if kind == "break-before-dot":
+            # an attribute / method chain continued on the next lines (the sub-expressions a, a.b, a.b.c then differ only by
+            # what follows a line break)
+            t = dot_break(text)
+            if t is None:
+                return ["@icontract.%s(%s, %r%s)" % (deco, lam, desc, extra)]
+            tl = t.split("\n")
+            return ["@icontract.%s(" % deco, "    lambda %s: %s" % (", ".join(params), tl[0])] + tl[1:-1] + [
+                tl[-1] + ",", "    %r%s)" % (desc, extra)]
         if kind == "no-description":
             return ["@icontract.%s(%s%s)" % (deco, lam, extra)]
         if kind == "no-description-kw":
